@@ -47,6 +47,8 @@ ASSUMPTIONS = [
     "index named 'particle' (range, labels, dupLabels, frameIdx, otherNamed); MultiIndex / particle-named layouts are in scope only when a stage returns them",
     "every stage receives a copy of the table (caller-side mutation such as pandas_sort's in-place "
     "rename of the index name is the subject of C18, not of this check)",
+    "link / link_partial label new trajectories by integers whose choice is not unique (and differs "
+    "from run to run on the same table): their outputs are compared as partitions of the rows",
     "'same numbers' = same column values after sorting rows by (frame, particle, positions, all "
     "columns), index layout ignored for trajectory tables; for the derived tables (drift, msd, "
     "proximity, relate_frames) index values and column values, names ignored; tolerance 1e-9 rel.",
@@ -313,7 +315,32 @@ def canon_derived(obj):
     return dict(cols=cols, rows=rows)
 
 
+def canon_partition(df):
+    """link / link_partial name new trajectories by integers whose choice is legitimately not
+    unique (set iteration order of Point objects; differs from run to run on the same table):
+    compare the PARTITION of the rows into trajectories - labels renamed by first appearance in
+    the canonical row order (frame, x, y, remaining columns)."""
+    others = [c for c in df.columns if c != "particle"]
+    key = [c for c in ["frame", "x", "y"] if c in others] + \
+          sorted(str(c) for c in others if c not in ("frame", "x", "y"))
+    vals = [tuple(_num(df[c].values[i]) for c in key) for i in range(len(df))]
+    skey = lambda r: tuple((0, 0.0, "") if v is None else
+                           ((1, v, "") if isinstance(v, float) else (2, 0.0, v)) for v in r)
+    order = sorted(range(len(df)), key=lambda i: skey(vals[i]))
+    lab = df["particle"].values
+    ren = {}
+    rows = []
+    for i in order:
+        l = _num(lab[i])
+        if l not in ren:
+            ren[l] = float(len(ren))
+        rows.append(vals[i] + (ren[l],))
+    return dict(cols=key + ["particle~"], rows=rows)
+
+
 def canon_out(stage, obj):
+    if stage in ("link", "link_partial"):
+        return canon_partition(obj)
     if stage in PRODUCERS or stage == "cluster":
         return canon_traj(obj)
     c = canon_derived(obj)
